@@ -127,6 +127,8 @@ func (w *World) seedsForParam(t types.Type, variadic bool) []nilSeed {
 			for _, e := range elemSeeds(i) {
 				ev := e.av
 				out = append(out, nilSeed{"list[" + e.label + "]", "list-with-" + e.class, AV{K: kSlice, T: t, Nil: nilNo, Elem: &ev}})
+				// the same member as the ONLY member: single-member lists take the compact / "first element" paths
+				out = append(out, nilSeed{"list-of-one[" + e.label + "]", "single-" + e.class, AV{K: kSlice, T: t, Nil: nilNo, Elem: &ev, Len: 2}})
 			}
 		}
 	}
